@@ -342,5 +342,5 @@ NOT_CLAIMED = {}
 # user-defined GridObject classes next to the built-in ones (subprocess probe, see harness/customprobe.py)
 PROPS['C16']['extra'] = [_custom_classes]
 PROPS['C17']['extra'] = [_custom_classes]
-for _pid in ('C03', 'C06', 'C19'):
+for _pid in ('C03', 'C06', 'C15', 'C19', 'C20'):
     PROPS[_pid]['extra'] = list(PROPS[_pid].get('extra', [])) + [_custom_classes]
